@@ -289,6 +289,9 @@ func (x *Exec) load(st *State, l *Loc) Value {
 		x.unsupported(st, fmt.Sprintf("load from unknown object %d", l.Obj))
 		return nil
 	}
+	if bc, ok := root.(byteCell); ok {
+		return bc.V
+	}
 	// materialise lazies along the path
 	root = x.forcePath(st, l.Obj, root, l.Path)
 	v, err := getPath(root, l.Path)
@@ -334,6 +337,10 @@ func (x *Exec) store(st *State, l *Loc, v Value) {
 	root, ok := st.heap[l.Obj]
 	if !ok {
 		x.unsupported(st, fmt.Sprintf("store to unknown object %d", l.Obj))
+		return
+	}
+	if _, ro := root.(byteCell); ro {
+		x.unsupported(st, "store into an element of a []byte")
 		return
 	}
 	root = x.forcePath(st, l.Obj, root, l.Path[:max(0, len(l.Path)-1)])
